@@ -144,7 +144,7 @@ def design(c):
     if not q:
         runs += [("three_requests_mem", R3, [mcfg("memory", True, 2, 3, T_MODEL, True)], MENU3, 1, 2),
                  ("three_requests_wfr", R3, [mcfg("wfr", True, 3, 4, T_MODEL, True), mcfg("memory", True, 2, 0, 0, True, True)], MENU3, 1, 2),
-                 ("three_requests_sync", R3, [mcfg("none", False, 0, 0, T_MODEL, True), mcfg("memory", False, 0, 0, T_MODEL, True)], MENU3, 2, 2)]
+                 ("three_requests_sync", R3, [mcfg("none", False, 0, 0, T_MODEL, True), mcfg("memory", False, 0, 0, T_MODEL, True)], MENU3, 1, 2)]
     # request contexts that carry the links of an upstream batch ("chain"): the documented behaviour (Variant "code") satisfies
     # everything; the tree as it is (Variant "alias", finding E03-links-alias) satisfies everything but LinksComplete, which holds
     # in the form Inv \/ KnownAlias -- and is REFUTED in its strict form (last entry of `wrong`)
